@@ -125,6 +125,9 @@ impl Sm2PublicKey {
         if digest.len() != 32 {
             return Err(Sm2Error::InvalidDigestLen);
         }
+        if sig.len() != 64 {
+            return Err(Sm2Error::InvalidDigest);
+        }
         let n = &SM2_N;
         let r = &u256_from_be_bytes(&sig[..32]);
         let s = &u256_from_be_bytes(&sig[32..]);
